@@ -30,7 +30,7 @@ def do_import(pid, mdir, offset=0):
         text = re.sub(r'/tmp/wt-[a-z0-9]+/src', "' + __import__('os').environ.get('SEEDED_SRC', '/repo/src') + '", text) if False else text
         open(os.path.join(d, 'demo.py'), 'w').write(text)
         md = open(os.path.join(mdir, k + '.md')).read() if os.path.exists(os.path.join(mdir, k + '.md')) else ''
-        meta = {'id': sid, 'property': pid, 'source': 'independent sub-agent given only the property text and a private worktree of /repo' + (' (second round)' if offset else ''),
+        meta = {'id': sid, 'property': pid, 'source': 'independent sub-agent given only the property text and a private worktree of /repo' + (' (round %s)' % os.environ.get('SEEDED_ROUND', '2') if offset else ''),
                 'needs_to_manifest': md.strip(), 'ran': None}
         json.dump(meta, open(os.path.join(d, 'meta.json'), 'w'), indent=1)
         print('imported', sid)
